@@ -274,12 +274,28 @@ def _and(conds, old):
     return at(ast.BoolOp(op=ast.And(), values=list(conds)), old)
 
 
-def canon_block(stmts: list) -> list:
-    """Recursively canonicalise a statement list."""
+def _empty_kind(val):
+    if _is_empty_list(val):
+        return 'list'
+    if _is_empty_str(val):
+        return 'str'
+    return None
+
+
+def canon_block(stmts: list, outer=None) -> list:
+    """Recursively canonicalise a statement list.  `outer`: names that hold a fresh empty list at block entry (bound by an
+    enclosing block and not mentioned since) - an accumulating loop in this block may use them (never across a loop boundary)."""
     out = []
+    fresh = dict(outer or {})
     for s in stmts:
-        out.extend(_canon_stmt(s))
-    out = _accumulations(out)
+        out.extend(_canon_stmt(s, fresh))
+        for n in ast.walk(s):
+            if isinstance(n, ast.Name):
+                fresh.pop(n.id, None)
+        nm, val = _single_name_assign(s)
+        if nm is not None and _empty_kind(val):
+            fresh[nm] = _empty_kind(val)
+    out = _accumulations(out, dict(outer or {}))
     out = _search_loops(out)
     out = [_loop_append(s) for s in out]
     return out
@@ -309,9 +325,18 @@ def _loop_append(s):
     return at(ast.Expr(value=call), s)
 
 
-def _canon_stmt(s) -> list:
+def _canon_stmt(s, fresh=None) -> list:
     if isinstance(s, (ast.FunctionDef, ast.AsyncFunctionDef, ast.ClassDef)):
         return [s]          # nested definitions are normalised as functions of their own
+    # a, b = (x, y) with independent sides -> two bindings
+    if isinstance(s, ast.Assign) and len(s.targets) == 1 and isinstance(s.targets[0], ast.Tuple) and isinstance(s.value, ast.Tuple) \
+            and len(s.targets[0].elts) == len(s.value.elts) and all(isinstance(t, ast.Name) for t in s.targets[0].elts) \
+            and not any(mentions(t.id, s.value) for t in s.targets[0].elts):
+        parts = []
+        for t, v in zip(s.targets[0].elts, s.value.elts):
+            parts.extend(_canon_stmt(at(ast.Assign(targets=[ast.Name(id=t.id, ctx=ast.Store())], value=v), s), fresh))
+        return parts
+    inherit = fresh if isinstance(s, (ast.If, ast.Try, ast.With)) else None
     # expressions of this statement
     for field, value in ast.iter_fields(s):
         if isinstance(value, ast.expr):
@@ -327,7 +352,7 @@ def _canon_stmt(s) -> list:
     for field in ('body', 'orelse', 'finalbody'):
         v = getattr(s, field, None)
         if isinstance(v, list) and (not v or isinstance(v[0], ast.stmt)):
-            setattr(s, field, canon_block(v))
+            setattr(s, field, canon_block(v, inherit if field == 'body' or isinstance(s, ast.If) else None))
     if isinstance(s, ast.Try):
         for h in s.handlers:
             h.body = canon_block(h.body)
@@ -350,7 +375,7 @@ def _canon_stmt(s) -> list:
     return [s]
 
 
-def _accumulations(stmts: list) -> list:
+def _accumulations(stmts: list, outer=None) -> list:
     """`x = []` ... `for t in it: [if c:] x.append(e)`  ->  `x = [e for t in it if c]`
        `x = ''` ... `for t in it: [if c:] x += e`        ->  `x = ''.join(e for t in it if c)`"""
     out = list(stmts)
@@ -362,7 +387,7 @@ def _accumulations(stmts: list) -> list:
                 continue
             fb = _loop_filter_body(s.body)
             if fb is None or not isinstance(fb[1], (ast.Expr, ast.AugAssign, ast.Assign)):
-                r = _summarised_accumulation(out, j)
+                r = _summarised_accumulation(out, j, outer or {})
                 if r is not None:
                     out = r
                     changed = True
@@ -439,26 +464,90 @@ def _accumulations(stmts: list) -> list:
     return out
 
 
-def _summarised_accumulation(out: list, j: int):
-    """A loop whose body - whatever its branching and its loop-local temporaries - appends AT MOST ONE element to one list per
-    iteration and does nothing else:  `x = []` ... `for t in it: <body>`  ->  `x = [<element> for t in it if <some path appends>]`
-    with <element> a conditional expression over the appending paths (symbolic execution of the body, locals substituted)."""
+def simplify_cond(expr):
+    """A boolean combination rebuilt without the atoms it does not depend on (truth table over <= 8 atoms); a condition that is
+    a conjunction of literals comes out as that conjunction."""
+    import itertools
+    from . import guards as G
+    leaves = {}
+
+    def collect(n):
+        if isinstance(n, ast.BoolOp):
+            for v in n.values:
+                collect(v)
+        elif isinstance(n, ast.UnaryOp) and isinstance(n.op, ast.Not):
+            collect(n.operand)
+        else:
+            f = G._formula(n)
+            if f[0] == 'atom':
+                leaves.setdefault(f[1], (n, True))
+            elif f[0] == 'not' and f[1][0] == 'atom':
+                leaves.setdefault(f[1][1], (n, False))
+            else:
+                for a in G.atoms_of(f):
+                    leaves.setdefault(a, None)
+    collect(expr)
+    f = G._formula(expr)
+    ats = G.atoms_of(f)
+    if not ats or len(ats) > 8 or any(leaves.get(a) is None for a in ats):
+        return expr
+    rel = []
+    for a in ats:
+        others = [x for x in ats if x != a]
+        dep = False
+        for bits in itertools.product([False, True], repeat=len(others)):
+            v = dict(zip(others, bits))
+            if G.evaluate(f, dict(v, **{a: True})) != G.evaluate(f, dict(v, **{a: False})):
+                dep = True
+                break
+        if dep:
+            rel.append(a)
+    fixed = {a: False for a in ats if a not in rel}
+    sat = [bits for bits in itertools.product([False, True], repeat=len(rel)) if G.evaluate(f, dict(fixed, **dict(zip(rel, bits))))]
+    if not rel:
+        return ast.Constant(value=bool(sat))
+
+    def lit(a, val):
+        node, pol = leaves[a]
+        return clone(node) if pol == val else negate(clone(node))
+    # a sub-cube?
+    cube = {}
+    for k, a in enumerate(rel):
+        vals = {b[k] for b in sat}
+        if len(vals) == 1:
+            cube[a] = vals.pop()
+    if len(sat) == 2 ** (len(rel) - len(cube)):
+        parts = [lit(a, v) for a, v in cube.items()]
+        return parts[0] if len(parts) == 1 else ast.BoolOp(op=ast.And(), values=parts) if parts else ast.Constant(value=True)
+    terms = []
+    for b in sat:
+        parts = [lit(a, v) for a, v in zip(rel, b)]
+        terms.append(parts[0] if len(parts) == 1 else ast.BoolOp(op=ast.And(), values=parts))
+    return terms[0] if len(terms) == 1 else ast.BoolOp(op=ast.Or(), values=terms)
+
+
+def _summarised_accumulation(out: list, j: int, outer=None):
+    """A loop whose body - whatever its branching and its loop-local temporaries - appends AT MOST ONE element per iteration to
+    each of one or several lists and does nothing else:  `x = []` ... `for t in it: <body>`  ->
+    `x = [<element> for t in it if <some path appends to x>]` (one comprehension per list; loop fission is exact because the
+    body has no other effect), with <element> a conditional expression over the appending paths (symbolic execution of the
+    body, locals substituted)."""
     from . import symex
     from .errors import AnalysisError
+    outer = outer or {}
     s = out[j]
     if s.orelse or has_node(s.body, (ast.For, ast.While, ast.Try, ast.With, ast.Return, ast.Raise, ast.Break, ast.FunctionDef, ast.Lambda,
                                      ast.Yield, ast.YieldFrom, ast.Delete)):
         return None
     try:
-        sps = symex.sym_paths(s.body, limit=32, inliner=False)
+        sps = symex.sym_paths(s.body, limit=64, inliner=False)
     except AnalysisError:
         return None
-    x = None
-    appending = []
+    per = {}            # accumulator -> [(SymPath, element)]
     for sp in sps:
         if sp.end not in ('fall', 'continue'):
             return None
-        apps = []
+        seen_here = set()
         for e in sp.events:
             if e.kind in ('assign', 'cond', 'other'):
                 if e.kind == 'other' and not isinstance(e.node, ast.Pass):
@@ -467,55 +556,71 @@ def _summarised_accumulation(out: list, j: int):
             if e.kind == 'expr' and isinstance(e.expr, ast.Call) and isinstance(e.node.value.func, ast.Attribute) \
                     and e.node.value.func.attr == 'append' and isinstance(e.node.value.func.value, ast.Name) and len(e.expr.args) == 1 \
                     and not e.expr.keywords:
-                apps.append((e.node.value.func.value.id, e.expr.args[0]))
+                x = e.node.value.func.value.id
+                if x in seen_here:
+                    return None
+                seen_here.add(x)
+                per.setdefault(x, []).append((sp, e.expr.args[0]))
                 continue
             return None
-        if len(apps) > 1:
-            return None
-        # the tests must not call anything that could have an effect
         if not all(symex.pure(c) or _only_reads(c) for c, _ in sp.conds):
             return None
-        if apps:
-            if x is not None and apps[0][0] != x:
-                return None
-            x = apps[0][0]
-            appending.append((sp, apps[0][1]))
-    if x is None or not appending:
+    if not per:
         return None
     tn = _target_names(s.target)
     locals_ = stores_in(s.body)
-    if x in tn or x in locals_ or mentions(x, [s.iter]) or any(mentions(x, e) or any(mentions(x, c) for c, _ in sp.conds) for sp, e in appending):
-        return None
+    inits = {}
+    for x, appending in per.items():
+        if x in tn or x in locals_ or mentions(x, [s.iter]) or any(mentions(y, e) or any(mentions(y, c) for c, _ in sp.conds)
+                                                                    for sp, e in appending for y in per):
+            return None
+        i = j - 1
+        while i >= 0 and not mentions(x, out[i]):
+            i -= 1
+        if i < 0:
+            if outer.get(x) != 'list':
+                return None
+            inits[x] = None
+            continue
+        nm, val = _single_name_assign(out[i])
+        if nm != x or not _is_empty_list(val):
+            return None
+        inits[x] = i
     if any(mentions(n, out[j + 1:]) for n in locals_):
         return None         # a loop-local temporary is read after the loop
-    i = j - 1
-    while i >= 0 and not mentions(x, out[i]):
-        i -= 1
-    if i < 0:
-        return None
-    nm, val = _single_name_assign(out[i])
-    if nm != x or not _is_empty_list(val):
-        return None
 
     def cond_of(sp):
         cs = [c if t else negate(c) for c, t in sp.conds]
         return _and([clone(c) for c in cs], s) if cs else ast.Constant(value=True)
-    conds = [cond_of(sp) for sp, _ in appending]
-    if len(appending) == len(sps):
-        flt = None
-    elif len(conds) == 1:
-        flt = conds[0]
-    else:
-        flt = ast.BoolOp(op=ast.Or(), values=conds)
-    elt = clone(appending[-1][1])
-    if not all(same(e, appending[0][1]) for _, e in appending):
-        for (sp, e), c in list(zip(appending, conds))[-2::-1]:
-            elt = ast.IfExp(test=clone(c), body=clone(e), orelse=elt)
-    gen = ast.comprehension(target=s.target, iter=s.iter, ifs=([flt] if flt is not None else []), is_async=0)
-    new = at(ast.Assign(targets=[ast.Name(id=x, ctx=ast.Store())], value=ast.ListComp(elt=elt, generators=[gen])), s)
-    res = list(out)
-    res[j] = new
-    del res[i]
+    news = []
+    for x, appending in per.items():
+        conds = [cond_of(sp) for sp, _ in appending]
+        if len(appending) == len(sps):
+            flt = None
+        elif len(conds) == 1:
+            flt = conds[0]
+        else:
+            flt = ast.BoolOp(op=ast.Or(), values=conds)
+        if flt is not None:
+            flt = simplify_cond(flt)
+            ast.fix_missing_locations(at(flt, s))
+            if _bool_const(flt) is True:
+                flt = None
+        elt = clone(appending[-1][1])
+        if not all(same(e, appending[0][1]) for _, e in appending):
+            for (sp, e), c in list(zip(appending, conds))[-2::-1]:
+                elt = ast.IfExp(test=simplify_cond(clone(c)), body=clone(e), orelse=elt)
+        gen = ast.comprehension(target=clone(s.target), iter=clone(s.iter), ifs=([flt] if flt is not None else []), is_async=0)
+        news.append(at(ast.Assign(targets=[ast.Name(id=x, ctx=ast.Store())], value=ast.ListComp(elt=elt, generators=[gen])), s))
+    drop = {i for i in inits.values() if i is not None}
+    res = []
+    for k, st in enumerate(out):
+        if k in drop:
+            continue
+        if k == j:
+            res.extend(news)
+        else:
+            res.append(st)
     return res
 
 
